@@ -12,7 +12,7 @@ from layout import q
 ID = 'C09'
 GENMODS = ['gen_c09', 'gen_forms', 'gen_c12', 'gen_store']
 TARGET = 'props/C09.vo'
-PROOF_FILES = ['proof/C09Syntax.v', 'proof/C09Lexer.v', 'proof/IniProofs.v', 'proof/IniFile.v', 'proof/C09Ini.v', 'proof/C09.v', 'props/C09.v']
+PROOF_FILES = ['proof/C09Syntax.v', 'proof/C09Lexer.v', 'proof/IniProofs.v', 'proof/IniFile.v', 'proof/C09Ini.v', 'proof/C09Meaning.v', 'proof/C09.v', 'props/C09.v']
 AXIOMS = ['reals', 'classic', 'primitives']
 TRUSTED = [
     'Coq 8.16.1 kernel; the syntax and formula theorems are axiom-free; the modifier theorems live over R (Reals axioms, classic, funext via Coquelicot imports); primitive axioms only through interval in the correspondence files',
@@ -386,6 +386,61 @@ def sem_callable(case, text=None):
     if s == 'EAM-Density': return al.electronDensityFunction
     return al.electronDensityFunction['Cu']
 
+# ------------------------------------------------------------------------------------------- (b') from the characters to the value
+PRE_TM = """From Coq Require Import Reals List ZArith.
+From Interval Require Import Tactic.
+From V Require Import lib.Common lib.RLib gen.PotFuncs gen.Combinators model.DefnSyntax model.Lexer model.Meaning.
+Import ListNotations.
+Fixpoint index_of (tbl : list (list Z)) (s : list Z) (i : nat) : nat := match tbl with [] => i | x :: r => if list_eqb x s then i else index_of r s (S i) end.
+Ltac expose_tm := cbv beta iota zeta delta [%s isum isum_aux skipn INR Nat.sub denote_s fold_left map op_of].
+"""
+def tm_goal(i, case, value, tol):
+    """the whole chain inside Coq: the characters of the definition -> tokens -> tree -> sexpr -> real function, within tol of the value the
+    implementation gives; None when the tree is outside the fragment (explicit ranges)"""
+    t = case['tree']
+    if '"range"' in json.dumps(t): return None
+    text = nary_text(t)
+    if not all(ord(c) < 128 for c in text): return None
+    ids, nums, arity = [], [], {}
+    def walk(t):
+        if t['op'] == 'leaf':
+            n = 'as.' + t['form']; arity[t['form']] = len(t['params'])
+            if n not in ids: ids.append(n)
+            for p_ in t['params']:
+                if repr(p_) not in nums: nums.append(repr(p_))
+        elif t['op'] == 'trans':
+            if 'trans' not in ids: ids.append('trans')
+            if 'as.constant' not in ids: ids.append('as.constant')
+            if repr(t['X']) not in nums: nums.append(repr(t['X']))
+            walk(t['a'])
+        else:
+            n = {'plus': 'sum', 'product': 'product', 'pow': 'pow'}[t['op']]
+            if n not in ids: ids.append(n)
+            for a in (t['nary_args'] if 'nary_args' in t else [t['a'], t['b']]): walk(a)
+    walk(t)
+    zs = lambda x: '[%s]%%Z' % '; '.join('%d' % ord(c) for c in x)
+    mkc = {'sum': 'MKSum', 'product': 'MKProduct', 'pow': 'MKPow', 'trans': 'MKTrans'}
+    forms = []
+    for j, n in enumerate(ids):
+        if n in mkc: continue
+        fname = n[3:]; k = arity.get(fname, 1) if fname != 'polynomial' else None
+        if k is None: forms.append('  | %d%%nat, ps => polynomial_call r (map NUM%d ps)' % (j, i))
+        else:
+            vs = ['p%d' % q for q in range(k)]
+            forms.append('  | %d%%nat, [%s] => %s_call r %s' % (j, '; '.join(vs), fname, ' '.join('(NUM%d %s)' % (i, v) for v in vs)))
+    d = ['Definition ids%d : list (list Z) := [%s].' % (i, '; '.join(zs(x) for x in ids)),
+         'Definition nums%d : list (list Z) := [%s].' % (i, '; '.join(zs(x) for x in nums)),
+         'Definition mk%d (n : nat) : option mkind := match n with %s | _ => None end.' % (i, ' '.join('| %d%%nat => Some %s' % (j, mkc[n]) for j, n in enumerate(ids) if n in mkc)),
+         'Definition isc%d (n : nat) : bool := %s.' % (i, 'Nat.eqb n %d' % ids.index('as.constant') if 'as.constant' in ids else 'false'),
+         'Definition NUM%d (z : Z) : R := (match z with %s | _ => 0 end)%%R.' % (i, ' '.join('| %d%%Z => %s' % (j, fc.rq(float(x))) for j, x in enumerate(nums))),
+         'Definition FORM%d (l : nat) (ps : list Z) (r : R) : R := (match l, ps with\n%s\n  | _, _ => 0 end)%%R.' % (i, '\n'.join(forms)),
+         'Definition text%d : list Z := %s.' % (i, zs(text))]
+    chain = 'option_map (to_sexpr mk%d isc%d) (read_value (fun s => index_of ids%d s 0%%nat) (fun s => Z.of_nat (index_of nums%d s 0%%nat)) text%d)' % (i, i, i, i, i)
+    g = ('Goal True. Proof. first [ assert (exists E, %s = Some (Some E)) by (vm_compute; eexists; reflexivity); '
+         'assert (forall E, %s = Some (Some E) -> (Rabs (denote_s FORM%d NUM%d E %s - %s) <= %s)%%R) by (intros E HE; vm_compute in HE; injection HE as <-; cbv beta iota delta [FORM%d NUM%d]; expose_tm; interval with (i_prec 120, i_depth 5)) '
+         '| idtac "PFAIL %d" ]. exact I. Qed.' % (chain, chain, i, i, fc.rq(case['r']), fc.rq(value), fc.rq(tol), i, i, i))
+    return '\n'.join(d) + '\n' + g
+
 # ------------------------------------------------------------------------------------------- (c) custom formulas
 def gen_fexpr(g, depth, nvars, arities):
     r = g.random()
@@ -576,11 +631,28 @@ def correspond(ctx):
         goals.append(fc.point_goal(len(kept) - 1, '(cf %s %s)' % (term, fc.rq(c['r'])), o['v'], 1e-9 * scale))
         if o['has_d']: goals.append(fc.point_goal(len(kept) - 1, '(match cd %s with Some d => d %s | None => 0 end)' % (term, fc.rq(c['r'])), o['d'], 1e-9 * scale))
         if o['has_d2']: goals.append(fc.point_goal(len(kept) - 1, '(match cd2 %s with Some d => d %s | None => 0 end)' % (term, fc.rq(c['r'])), o['d2'], 1e-9 * scale))
+    # ... and the same values from the characters: text -> tokens -> tree -> meaning, inside Coq (model/Meaning.v)
+    tm, tm_cases = [], []
+    for c in kept:
+        try: o = p_c07.observe(sem_callable(c), c['r'])
+        except Exception: continue
+        gtxt = tm_goal(len(tm_cases), c, o['v'], 1e-9 * max(1.0, abs(o['v'])))
+        if gtxt is not None: tm.append(gtxt); tm_cases.append(c)
+    tm_pre = PRE_TM % ' '.join(fc.unfold_list())
+    bodies = ['\n'.join(tm[k:k + 12]) for k in range(0, len(tm), 12)]
+    from concurrent.futures import ThreadPoolExecutor
+    import re as _re
+    with ThreadPoolExecutor(max_workers=8) as ex:
+        outs = list(ex.map(lambda ib: core.coq_eval('C09m_%d' % ib[0], tm_pre, ib[1], timeout=1200), enumerate(bodies)))
+    for o_ in outs:
+        for m_ in _re.findall(r'PFAIL (\d+)', o_):
+            c = tm_cases[int(m_)]
+            dis.append({'case': c, 'what': 'from the characters: the text %r read, resolved and evaluated in Coq at r = %r is not the value the implementation gives' % (nary_text(c['tree']), c['r'])})
     for i in sorted(set(fc.run_point_goals('C09s', goals, chunk=30))):
         dis.append({'case': kept[i], 'what': 'the value/deriv/deriv2 of %s in [%s] at r = %r is not the pointwise meaning' % (nary_text(kept[i]['tree']), kept[i]['section'], kept[i]['r'])})
     dist = {'kinds': {'syntax': len(syn), 'text': len(txt), 'modifiers': len(sem), 'formulas': len(fo), 'ini_files': len(inis)}, 'ini_accepted': iacc, 'ini_with_continuation': sum(1 for c in inis if any(l[:1] in (' ', '\t') and l.strip() for l in c['lines'])), 'syntax_accepted': nacc, 'syntax_rejected': len(syn) - nacc,
             'text_accepted': tacc, 'text_rejected': len(txt) - tacc, 'text_without_token_cut': tlexfail, 'text_max_len': max([len(c['text']) for c in txt] or [0]),
-            'max_tokens': max(len(c['tokens']) for c in syn), 'modifier_cases_certified': len(kept), 'sections': {s: sum(1 for c in kept if c['section'] == s) for s in ('Pair', 'EAM-Embed', 'EAM-Density', 'EAM-Density-FS')},
+            'max_tokens': max(len(c['tokens']) for c in syn), 'modifier_cases_certified': len(kept), 'text_to_value_chains': len(tm_cases), 'sections': {s: sum(1 for c in kept if c['section'] == s) for s in ('Pair', 'EAM-Embed', 'EAM-Density', 'EAM-Density-FS')},
             'nary': sum(1 for c in kept if 'nary_args' in json.dumps(c['tree'])), 'formula_ops': {k: sum(1 for c in fo if '"%s"' % k in json.dumps(c['bodies'])) for k in ('call', 'if', 'div2', 'sq', 'floor', 'fabs', 'poly')}}
     nex = sum(1 for c in txt if c.get('exhaustive'))
     dist['text_exhaustive_small_scope'] = nex
